@@ -52,7 +52,10 @@ def sym(E, p, kf):
         starts, _ = specs.prefix_starts(lens)
         D = specs.store_of(data)
         for c in range(n):
-            sm = z3.Sum([z3.If(l > c, z3.Select(D, s + c), 0) for s, l in zip(starts, lens)])
+            if dt == "bool":
+                sm = z3.Sum([z3.If(z3.And(l > c, z3.Select(D, s + c)), 1, 0) for s, l in zip(starts, lens)])
+            else:
+                sm = z3.Sum([z3.If(l > c, z3.Select(D, s + c), 0) for s, l in zip(starts, lens)])
             cnt = z3.Sum([z3.If(l > c, 1, 0) for l in lens])
             conds.append(specs.eqv(got["flat"][c], fdiv(sm, cnt)))
         return dict(goal=specs.conj(conds), got=got, case=case)
@@ -118,6 +121,8 @@ def jobs(tier, seed):
     out.append(dict(base, op="col_counts", dtype="int64"))
     out.append(dict(base, op="mean0", dtype="int64", R=3))
     out.append(dict(base, op="mean0", dtype="int64", via="np", R=3))
+    out.append(dict(base, op="mean0", dtype="bool", R=3))
+    out.append(dict(base, op="mean0", dtype="uint8", R=3))
     out.append(dict(base, op="colvals", dtype="int64", R=3 if q else 4))
     return [dict(h="C09.columns", p=p) for p in out]
 
